@@ -307,9 +307,9 @@ func c05Run(b *core.B) {
 
 func init() {
 	core.Register(&core.Prop{
-		ID:    "C05",
-		Level: "fault_enumeration",
-		Rule: fmt.Sprintf("faults: a failing helper returning a unique sentinel error, plus 6 instrumented failing operations (division by zero, index out of range, type mismatch, bad argument type, missing member, calling a non-function) whose instrumented operand proves the operation was reached; positions: %d statement/body positions (tags, let/assign, conditions, branch bodies, loop iterable/body, function bodies, helper blocks, contentFor/contentOf, partial body/data/layout, after output) x %d expression positions (operand of each operator left and right, !, array/hash element, index, container, helper/user-function/variadic/method argument), all pairs enumerated for every fault, nestings of depth 2-3 sampled. A case is non-trivial when the instrumented helper's invocation counter is > 0 after the render (untaken/short-circuited positions are counted separately). Oracle: err != nil, out == \"\", errors.Is(err, sentinel) for helper errors.", len(c05StmtSkels), len(c05ExprSkels())),
+		ID:         "C05",
+		Level:      "fault_enumeration",
+		Rule:       fmt.Sprintf("faults: a failing helper returning a unique sentinel error, plus 6 instrumented failing operations (division by zero, index out of range, type mismatch, bad argument type, missing member, calling a non-function) whose instrumented operand proves the operation was reached; positions: %d statement/body positions (tags, let/assign, conditions, branch bodies, loop iterable/body, function bodies, helper blocks, contentFor/contentOf, partial body/data/layout, after output) x %d expression positions (operand of each operator left and right, !, array/hash element, index, container, helper/user-function/variadic/method argument), all pairs enumerated for every fault, nestings of depth 2-3 sampled. A case is non-trivial when the instrumented helper's invocation counter is > 0 after the render (untaken/short-circuited positions are counted separately). Oracle: err != nil, out == \"\", errors.Is(err, sentinel) for helper errors.", len(c05StmtSkels), len(c05ExprSkels())),
 		Assume:     []string{"the tolerated fault (unknown identifier as condition or operand of ! == != && ||) is checked separately and must not fail"},
 		Batches:    batchesQT(16, 32),
 		Run:        c05Run,
